@@ -198,8 +198,8 @@ func protoCase(cc *pj.ConvCase) core.Case {
 			case pi != nil:
 				r.Add("protobuf|"+trig+"|panic@"+pi.Site+":"+core.PanicClass(pi.Val), "%s: panic %s\ninput %x json %s\n%s", cc.What, pi.Val, in, js, pi.Stack)
 			case e1 != nil:
-				r.Class = "p2j-error" // a failing conversion is allowed by C08's statement; nothing to compose
-				r.Key = ""
+				// C08 lets p2j fail, this property does not: a conforming finite message must make the round trip
+				r.Add("protobuf|"+trig+"|p2j-error", "%s: p2j fails on a conforming message: %v\ninput %x", cc.What, e1, in)
 			case e2 != nil:
 				r.Add("protobuf|"+trig+"|j2p-rejects-p2j-output", "%s: j2p rejects the converter's own canonical output: %v\njson %s\ninput %x", cc.What, e2, js, in)
 			default:
